@@ -631,3 +631,84 @@ func TestC19(t *testing.T) {
 func isValidUTF8(s string) bool { return strings.ToValidUTF8(s, "�") == s }
 
 var _ = jp.Search
+
+func init() { predicates["hwequiv"] = predHWEquiv }
+
+func hwDocValue() *hwDoc {
+	in := &hwInner{Name: "n", Tags: []string{"x", "y", "z"}}
+	return &hwDoc{Name: "d", Items: []*hwInner{in, nil, {Name: "m", Tags: []string{}}, {Name: "k", Tags: []string{"t"}}}, Inner: *in, Ptr: in,
+		Nums: []float64{2, 1, 3, 0}, Strs: []string{"b", "a", "c"}}
+}
+
+// predHWEquiv: an expression on the hand-written struct document vs its generic JSON twin.
+func predHWEquiv(c Case) (r Result) {
+	expr := c.expr()
+	doc := hwDocValue()
+	twin, err := normalise(struct {
+		Name  string
+		Items []*hwInner
+		Inner hwInner
+		Ptr   *hwInner
+		Nums  []float64
+		Strs  []string
+	}{doc.Name, doc.Items, doc.Inner, doc.Ptr, doc.Nums, doc.Strs})
+	if err != nil {
+		r.Discard = "HARNESS:normalise"
+		r.Violation = err.Error()
+		return
+	}
+	so, to := libSearch(expr, doc), libSearch(expr, twin)
+	r.Nontrivial = true
+	if so.Panic != nil {
+		r.Violation = "Search panicked on struct/typed-slice data"
+		r.Got = showOut(so)
+		return
+	}
+	if to.Panic != nil {
+		r.Discard = "generic-form-panics"
+		return
+	}
+	if (so.Err != nil) != (to.Err != nil) {
+		r.Violation = "struct form and generic JSON form disagree about failure"
+		r.Expected, r.Got = "generic: "+showOut(to), "struct: "+showOut(so)
+		return
+	}
+	if so.Err == nil {
+		sn, err := normalise(so.Val)
+		if err != nil || !reflect.DeepEqual(sn, to.Val) {
+			r.Violation = "navigation on typed slices differs from the equivalent generic JSON document"
+			r.Expected, r.Got = "generic: "+show(to.Val), "struct: "+show(sn)
+		}
+	}
+	return
+}
+
+// TestC18Slices: index and slice parameters (window and 64-bit boundary values)
+// on typed slices of strings, numbers, pointers and on nested typed slices.
+func TestC18Slices(t *testing.T) {
+	vals := []string{"", "0", "1", "-1", "2", "-2", "3", "-4", "5", "9223372036854775807", "-9223372036854775807", "-9223372036854775808", "2147483648", "4611686018427387904"}
+	fields := []string{"Strs", "Nums", "Items", "Inner.Tags", "Items[0].Tags", "Items[*].Tags"}
+	n := 0
+	for _, f := range fields {
+		for _, a := range vals {
+			for _, b := range vals {
+				for _, c := range vals {
+					e := f + "[" + a + ":" + b + ":" + c + "]"
+					if f == "Items" {
+						e += ".Name"
+					}
+					run(t, Case{Property: "C18", Kind: "hwequiv", Expr: e})
+					n++
+				}
+			}
+			if a != "" {
+				run(t, Case{Property: "C18", Kind: "hwequiv", Expr: f + "[" + a + "]"})
+				n++
+			}
+		}
+	}
+	st := statsFor("C18")
+	st.mu.Lock()
+	st.Exhaustive["C18.typed-slices"] = fmt.Sprintf("%d typed-slice fields x %d^3 slice parameter triples (window and 64-bit boundary values) + indices: %d expressions, struct form vs generic form", len(fields), len(vals), n)
+	st.mu.Unlock()
+}
